@@ -10,6 +10,7 @@ package cmdapi
 //@ import "ariga.io/atlas/sql/migrate"
 //@ import "ariga.io/atlas/sql/sqlclient"
 //@ import cmdmigrate "ariga.io/atlas/cmd/atlas/internal/migrate"
+//@ import "github.com/spf13/cobra"
 
 // ---------------------------------------------------------------------------------------
 // C13 / C10: transaction typestate of `migrate apply`
@@ -43,15 +44,15 @@ package cmdapi
 //@   ensures err == nil ==> m == "" || m == txModeNone || m == txModeFile
 
 //@ func (tx *tx) modeFor(f migrate.File) (m string, err error)
-//@   requires tx != nil
+//@   requires tx != nil && f != nil
 //@   pure
 //@   ensures non-local-file-uses-global: !GvcIs[*migrate.LocalFile](f) ==> err == nil && m == tx.mode
 //@   ensures directive-cannot-escape-all: err == nil && tx.mode == txModeAll ==> m == txModeAll
 //@   ensures effective: err == nil ==> m == tx.mode || m == txModeNone || m == txModeFile
 
 //@ func (tx *tx) driverFor(ctx context.Context, f migrate.File) (d migrate.Driver, rrw migrate.RevisionReadWriter, err error)
-//@   requires tx != nil && tx.c != nil
-//@   requires tx.tx != nil ==> tx.txrrw != nil && gvcClientOf(tx.txrrw) == tx.tx.Client
+//@   requires tx != nil && tx.c != nil && f != nil
+//@   requires tx.tx != nil ==> tx.tx.Client != nil && tx.txrrw != nil && gvcClientOf(tx.txrrw) == tx.tx.Client
 //@   modifies tx.tx, tx.txrrw, GvcTxBegun, GvcTxOpen, GvcLastTx
 //@   ensures dry-run-opens-nothing: tx.dryRun ==> err == nil && GvcIs[*dryRunDriver](d) && GvcIs[*dryRunRevisions](rrw) && GvcTxBegun == old(GvcTxBegun) && tx.tx == old(tx.tx)
 //@   ensures none-mode-uses-plain-connection: !tx.dryRun && err == nil && gvcModeOf(tx, f) == txModeNone ==>
@@ -83,3 +84,15 @@ package cmdapi
 //@   modifies tx.tx, tx.txrrw, GvcCommits, GvcTxOpen
 //@   ensures per-file-transaction-is-committed: old(tx.tx) != nil && !tx.dryRun && tx.mode != txModeAll ==> GvcCommits == old(GvcCommits)+1 && tx.tx == nil
 //@   ensures spanning-transaction-stays-open: tx.mode == txModeAll || tx.dryRun ==> tx.tx == old(tx.tx) && GvcCommits == old(GvcCommits)
+//@   ensures nothing-open-nothing-done: old(tx.tx) == nil ==> tx.tx == nil && GvcCommits == old(GvcCommits) && err == nil
+
+// The apply loop: a transaction is open at the head of an iteration only when one transaction
+// spans all files; execution stops at the first error; the spanning transaction is committed
+// only when every file succeeded.
+//@ func migrateApplyRun(cmd *cobra.Command, args []string, flags migrateApplyFlags, env *Env, mr *MigrateReport) (err error)
+//@   requires cmd != nil && env != nil && mr != nil && migrate.GvcExec.N >= 0
+//@   modifies everything
+//@   loop 1 invariant mux.tx != nil ==> mux.mode == txModeAll && mux.tx.Client != nil && mux.txrrw != nil && gvcClientOf(mux.txrrw) == mux.tx.Client
+//@   loop 1 invariant mux.c != nil && err == nil && dir != nil && migrate.GvcExec.N >= 0
+//@   loop 1 invariant (forall i int :: 0 <= i && i < len(pending) ==> pending[i] != nil)
+//@   loop 1 invariant mux.dryRun ==> mux.tx == nil
